@@ -322,6 +322,10 @@ class CallMixin(object):
     for n, r in enumerate(spec.requires):
       g = self.spec_bool(st, scx, r)
       self.oblige(st, 'pre[%s#%d]@%s' % (spec.name, n, line), g, node, 'precondition %r of %s' % (r, spec.name))
+    if spec.may_yield and not self.spec_depth:
+      class _Y(object):
+        name = spec.name
+      self.at_yield(st, cx, node, _Y)
     snap = dict(st.heap)
     snap['$alloc'] = st.alloc
     outs = []
@@ -349,6 +353,12 @@ class CallMixin(object):
     try:
       for e in spec.ensures:
         st.assume(self.spec_bool(st, scx, e))
+      if spec.conc:
+        # the callee establishes the shared-state invariant at its exit and its guarantee over
+        # every segment (guarantees are transitive and hold for interleaved operations too)
+        c = self.reg.concurrency.get(spec.conc) or {}
+        for e in list(c.get('invariant', ())) + list(c.get('guarantee', ())):
+          st.assume(self.spec_bool(st, scx, e))
     finally:
       self.old_stack.pop()
     st.frames.pop(fid, None)
